@@ -24,6 +24,18 @@ type Policy struct {
 	Family string
 	IDs    []sharing.ID
 	Build  func() (accessstructures.Monotone, error)
+	// BuildVariant builds an EQUAL policy from a differently ordered description (CNF: the maximal
+	// unqualified sets listed in rotated order; others: same as Build). Parties of a protocol each
+	// construct their own access-structure object, as separate processes would.
+	BuildVariant func(k int) (accessstructures.Monotone, error)
+}
+
+// Variant returns the k-th equivalent construction of the policy.
+func (p Policy) Variant(k int) (accessstructures.Monotone, error) {
+	if p.BuildVariant != nil {
+		return p.BuildVariant(k)
+	}
+	return p.Build()
 }
 
 // ID pools: dense, sparse-unsorted, large.
@@ -66,14 +78,23 @@ func cnfPolicy(masks []int, ids []sharing.ID) Policy {
 	for _, m := range masks {
 		parts = append(parts, idsStr(maskIDs(m, ids)))
 	}
-	return Policy{Name: "cnf(unq=" + strings.Join(parts, "") + " over " + idsStr(ids) + ")", Family: "cnf", IDs: ids,
-		Build: func() (accessstructures.Monotone, error) {
-			var sets []ds.Set[sharing.ID]
-			for _, m := range masks {
-				sets = append(sets, idSet(maskIDs(m, ids)...))
+	build := func(k int) (accessstructures.Monotone, error) {
+		var sets []ds.Set[sharing.ID]
+		for i := range masks {
+			m := masks[(i+k)%len(masks)]
+			members := maskIDs(m, ids)
+			if k%2 == 1 { // also reverse the member order inside each set
+				for a, b := 0, len(members)-1; a < b; a, b = a+1, b-1 {
+					members[a], members[b] = members[b], members[a]
+				}
 			}
-			return cnf.NewCNFAccessStructure(sets...)
-		}}
+			sets = append(sets, idSet(members...))
+		}
+		return cnf.NewCNFAccessStructure(sets...)
+	}
+	return Policy{Name: "cnf(unq=" + strings.Join(parts, "") + " over " + idsStr(ids) + ")", Family: "cnf", IDs: ids,
+		Build:        func() (accessstructures.Monotone, error) { return build(0) },
+		BuildVariant: build}
 }
 
 func maskIDs(m int, ids []sharing.ID) []sharing.ID {
